@@ -33,6 +33,28 @@ func isIDChar(b byte) bool {
 }
 
 func c15Judge(s, errText, bad, kind string, at int, glued bool) string {
+	if kind == "misplaced" {
+		// an exception id (possibly with a suffix) where a license must stand: whether that counts as an
+		// 'unknown identifier' is the library's call, but IF the message cites a lexeme and an offset, the
+		// lexeme must stand at that offset of the caller's string and be (part of) the offending word
+		if u := unkRe.FindStringSubmatch(errText); u != nil {
+			lex := u[1]
+			k, _ := strconv.Atoi(u[2])
+			if k < 0 || k+len(lex) > len(s) || s[k:k+len(lex)] != lex {
+				return fmt.Sprintf("error %q: the input %q does not have %q at offset %d (it is at %d)", errText, s, lex, k, strings.Index(s, lex))
+			}
+			if lex == "" || k+len(lex) <= at || k >= at+len(bad) {
+				return fmt.Sprintf("error %q cites %q at offset %d, which is no part of the offending word %q (offset %d) of %q", errText, lex, k, bad, at, s)
+			}
+			return ""
+		}
+		if m := offRe.FindStringSubmatch(errText); m != nil {
+			if k, _ := strconv.Atoi(m[1]); k < 0 || k > len(s) {
+				return fmt.Sprintf("error %q: offset %d lies outside the input %q (len %d)", errText, k, s, len(s))
+			}
+		}
+		return ""
+	}
 	m := offRe.FindStringSubmatch(errText)
 	if m == nil {
 		return fmt.Sprintf("error %q cites no offset although the only defect of %q is the identifier %q", errText, s, bad)
@@ -76,6 +98,9 @@ func c15Check(cs c15Case) (msg string, skip bool) {
 		if r.Panic != "" {
 			return "", true
 		}
+		if !r.IsErr && cs.Kind == "misplaced" {
+			return "", true
+		}
 		if !r.IsErr {
 			return fmt.Sprintf("Satisfies(MIT, %q) accepted the bad entry %q", cs.Allowed, cs.S), false
 		}
@@ -88,6 +113,9 @@ func c15Check(cs c15Case) (msg string, skip bool) {
 	e := Ext(cs.S)
 	if r.Panic != "" || e.Panic != "" {
 		return "", true
+	}
+	if cs.Kind == "misplaced" && (!r.IsErr || !e.IsErr) {
+		return "", true // this tree accepts the word here (its status is open): nothing to judge
 	}
 	if !r.IsErr || !e.IsErr {
 		return fmt.Sprintf("input %q with bad identifier %q was accepted (Satisfies err=%v, ExtractLicenses err=%v)", cs.S, cs.Bad, r.IsErr, e.IsErr), false
@@ -116,6 +144,8 @@ var c15Bad = []struct{ tok, kind string }{
 	// long lexemes (a message that shortens what it cites no longer cites the caller's text)
 	{"Acme-" + strings.Repeat("x", 43), "unknown"}, {"Acme-" + strings.Repeat("x", 44), "unknown"}, {"Acme-Proprietary-License-" + strings.Repeat("1.0.", 20) + "0", "unknown"},
 	{strings.Repeat("unknown-", 40) + "id", "unknown"},
+	// exception ids where a license must stand, plain and with the suffixes the scanner rewrites
+	{"Bison-exception-2.2", "misplaced"}, {"Classpath-exception-2.0-or-later", "misplaced"}, {"GPL-CC-1.0-or-later", "misplaced"}, {"Bison-exception-2.2-only", "misplaced"}, {"mif-exception+", "misplaced"},
 }
 
 func init() {
@@ -131,7 +161,7 @@ func init() {
 		ID:       "C15",
 		Title:    "error messages locate the offending text in the caller's own string",
 		Explorer: "E1 bounded-exhaustive enumeration of viable prefix x bad token x suffix x spacing, oracle on the error text vs the caller's string",
-		Rule: "prefix = every sequence of <= k items over 9 term forms (incl. synthesised and listed -or-later, '+', WITH, refs) and ( ) AND OR that ends where a term may start (checked with R-gram), bad token in {4 unknown ids, 4 missing-id forms}, suffix in {none, AND MIT} plus the closing parentheses, rendered loose / tight / padded / glued (keyword written directly against the next token, where this tree accepts that); " +
+		Rule: "prefix = every sequence of <= k items over 9 term forms (incl. synthesised and listed -or-later, '+', WITH, refs) and ( ) AND OR that ends where a term may start (checked with R-gram), bad token in {4 unknown ids, 4 missing-id forms, 4 long lexemes, 5 exception ids standing where a license must stand (plain, -or-later, -only, +: judged only on what the message cites)}, suffix in {none, AND MIT} plus the closing parentheses, rendered loose / tight / padded / glued (keyword written directly against the next token, where this tree accepts that); " +
 			"state = rendered string, transitions = Satisfies + ExtractLicenses; non-trivial = inputs whose prefix contains a rewritten (-or-later / +) form or a multi-byte spacing, i.e. where the scanner's private index and the caller's offset can differ",
 		Assumptions: []string{"the bad token is the only defect by construction (prefix viability is checked with R-gram)", "the offset is parsed from the message with /offset (\\d+)/, the lexeme with /unknown license '(.*)'/"},
 		Run:         c15Run,
@@ -225,7 +255,11 @@ func c15Run(c *Ctx) {
 					c.Add("transitions", 2)
 					c.Inc("evaluations")
 					if skip {
-						c.Inc("skipped_panic")
+						if bad.kind == "misplaced" {
+							c.Inc("skipped_misplaced_word_accepted_or_panic")
+						} else {
+							c.Inc("skipped_panic")
+						}
 						continue
 					}
 					c.Add("traces", 2)
